@@ -165,8 +165,171 @@ class Serial(Component):
         return []
 
 
+# ---------------------------------------------------------------------------------------------
+# part 2: origin independence, checked on the implementation by running the SAME schedule / arrival
+# pattern from a small origin and from origins at the wrap point and comparing application-level
+# results (no model involved: this is the property itself, used as an oracle).
+# ---------------------------------------------------------------------------------------------
+
+import collections
+import json as _json
+
+
+class SctpOrigin(Component):
+    """Two real SCTP endpoints: the same recorded schedule from small initial TSNs and from initial TSNs
+    a few chunks below 2^32 (TSN, stream reset and reconfig sequence numbers all derive from it) must
+    produce the same application-level history."""
+
+    name = "sctp-origin"
+    theorems = []
+
+    def cases(self, rng, tier):
+        from harness import sctp_check as S
+        n, steps = (10, 220) if tier == "quick" else (150, 450)
+        out = []
+        for i in range(n):
+            prof = ["reliable", "mixed-pr", "lifecycle"][i % 3]
+            c = S.make_case(rng, prof, steps, wrap=False)
+            c["tsnA"], c["tsnB"] = rng.randrange(1, 1000), rng.randrange(1, 1000)
+            # regenerate the schedule for these origins (ops are index based, independent of TSN values)
+            from harness import sctp_world as W
+            c["ops"] = W.random_ops(rng, dict(tagA=c["tagA"], tagB=c["tagB"], tsnA=c["tsnA"], tsnB=c["tsnB"]), steps, S.PROFILES[prof])
+            c["shiftA"] = 2**32 - c["tsnA"] - rng.randrange(1, 60)
+            c["shiftB"] = 2**32 - c["tsnB"] - rng.randrange(1, 60)
+            out.append(c)
+        return out
+
+    @staticmethod
+    def _history(case, tsnA, tsnB):
+        from harness import sctp_world as W
+        w = W.World(dict(case, tsnA=tsnA, tsnB=tsnB)).run()
+        healed = w.heal(4000)
+        hist = []
+        for n in "AB":
+            evs = []
+            for st in w.trace[n]:
+                for ev in st["events"]:
+                    evs.append(repr(ev))
+                evs.append(_json.dumps(st["public"]))
+            hist.append(evs)
+        return healed, hist, sum(len(v) for d in (w.deliveries("A"), w.deliveries("B")) for v in d.values())
+
+    def impl(self, case):
+        h0, a, n0 = self._history(case, case["tsnA"], case["tsnB"])
+        h1, b, n1 = self._history(case, (case["tsnA"] + case["shiftA"]) % 2**32, (case["tsnB"] + case["shiftB"]) % 2**32)
+        if (h0, a) == (h1, b):
+            return f"same healed={h0} deliveries={n0}"
+        for side in (0, 1):
+            for k, (x, y) in enumerate(zip(a[side], b[side])):
+                if x != y:
+                    return f"differ endpoint={'AB'[side]} item={k} small={x[:160]} wrapped={y[:160]}"
+        return f"differ healed {h0} vs {h1} or length"
+
+    def oracle(self, case, impl_out):
+        if impl_out.startswith("same"):
+            return None
+        return "SCTP association behaves differently when its sequence numbers wrap: " + impl_out
+
+    def label(self, case, impl_out):
+        return case.get("profile", "?") + ("" if impl_out.startswith("same") else "-DIFF")
+
+    def nontrivial(self, case, impl_out):
+        return "deliveries=0" not in impl_out
+
+
+class RtpOrigin(Component):
+    """JitterBuffer, NackGenerator, StreamStatistics and the sender's retransmission history: the same
+    arrival pattern with every sequence number shifted by k (mod 2^16) and every timestamp by k·3000
+    (mod 2^32) must give the same frames / the shifted missing sets / the same statistics."""
+
+    name = "rtp-origin"
+    theorems = []
+
+    def cases(self, rng, tier):
+        n = 300 if tier == "quick" else 6000
+        out = []
+        for _ in range(n):
+            length = rng.randrange(5, 120)
+            # arrival pattern over logical packet indices with loss, duplication, reordering
+            idx = []
+            for i in range(length):
+                x = rng.random()
+                if x < 0.1:
+                    continue
+                idx.append(i)
+                if x > 0.95:
+                    idx.append(i)
+            for _ in range(rng.randrange(0, 6)):
+                if len(idx) > 2:
+                    a = rng.randrange(len(idx) - 1)
+                    b = min(len(idx) - 1, a + rng.randrange(1, 6))
+                    idx[a], idx[b] = idx[b], idx[a]
+            sizes = [rng.randrange(1, 4) for _ in range(length)]  # packets per frame
+            shift = rng.choice([65535, 65500, 65536 - length // 2, 65536 - rng.randrange(1, 200), rng.randrange(65536)])
+            tshift = rng.choice([2**32 - 3000 * rng.randrange(1, 40), 2**32 - 1, 2**31, rng.randrange(2**32)])
+            out.append({"idx": idx, "sizes": sizes, "start": rng.randrange(0, 100), "shift": shift, "tshift": tshift,
+                        "cap": rng.choice([16, 32, 128]), "prefetch": rng.choice([0, 0, 2, 4]),
+                        "video": rng.random() < 0.5})
+        return out
+
+    @staticmethod
+    def _run(case, shift, tshift):
+        from aiortc.jitterbuffer import JitterBuffer
+        from aiortc.rtcrtpreceiver import NackGenerator, StreamStatistics
+        from aiortc.rtp import RtpPacket
+        # frame layout: logical packet i belongs to frame f(i)
+        frame_of = []
+        for f, s in enumerate(case["sizes"]):
+            frame_of += [f] * s
+        jb = JitterBuffer(capacity=case["cap"], prefetch=case["prefetch"], is_video=case["video"])
+        ng = NackGenerator()
+        st = StreamStatistics(90000)
+        import aiortc.rtcrtpreceiver as rr
+        frames, missing, pli = [], [], []
+        k = 0
+        saved = rr.time.time
+        try:
+            for i in case["idx"]:
+                if i >= len(frame_of):
+                    continue
+                seq = (case["start"] + i + shift) % 65536
+                ts = (frame_of[i] * 3000 + tshift) % 2**32
+                p = RtpPacket(sequence_number=seq, timestamp=ts, payload=bytes([i % 256, i // 256 % 256]))
+                p._data = p.payload
+                k += 1
+                rr.time.time = lambda k=k: 1000.0 + k * 0.01
+                flag, frame = jb.add(p)
+                pli.append(flag)
+                if frame is not None:
+                    frames.append((frame.data.hex(), (frame.timestamp - tshift) % 2**32))
+                missed = ng.add(p)
+                missing.append((missed, sorted((m - shift - case["start"]) % 65536 for m in ng.missing)))
+                st.add(p)
+        finally:
+            rr.time.time = saved
+        stats = (st.packets_received, st.packets_expected, st.packets_lost, st.fraction_lost, st.jitter,
+                 None if st.max_seq is None else (st.cycles + st.max_seq - st.base_seq))
+        return repr((frames, missing, pli, stats))
+
+    def impl(self, case):
+        a = self._run(case, 0, 0)
+        b = self._run(case, case["shift"], case["tshift"])
+        return "same" if a == b else f"differ small={a[:200]} shifted={b[:200]}"
+
+    def oracle(self, case, impl_out):
+        if impl_out == "same":
+            return None
+        return ("RTP receive pipeline (jitter buffer / NACK generator / receiver statistics) behaves differently when "
+                "sequence numbers and timestamps start near the wrap: " + impl_out)
+
+    def label(self, case, impl_out):
+        wraps = ((case["start"] + case["shift"]) % 65536 + len(case["idx"]) >= 65536
+                 or case["tshift"] + 3000 * len(case["sizes"]) >= 2**32)
+        return ("wraps" if wraps else "nowrap") + ("" if impl_out == "same" else "-DIFF")
+
+
 def components(tier):
-    return [Serial()]
+    return [Serial(), RtpOrigin(), SctpOrigin()]
 
 
 def classify_finding(finding, comp_name, case, what):
